@@ -111,6 +111,29 @@ def run(ctx: core.Ctx):
             prm = dict(sr=c["sr"]) if variant == "optv" else dict(sr=c["sr"], p=c["p"])
             jobs += make_jobs(rng, variant, c["y"], [bool(b) for b in c["mask"]], -3000, prm, ["reverse", "shift"])
     evaluate(ctx, jobs)
+    # exactly linear series whose gaps are marked by NaN / +inf / -inf (float cubes): kept on the line, and shifted with the offset
+    for variant in smooth.NANOK:
+        for k in range(ctx.budget(4, 30)):
+            n = rng.choice([8, 12, 24, 36])
+            a0, b0 = rng.randint(-2000, 4000), rng.choice([-25, -3, 1, 7, 40])
+            line = [a0 + b0 * i for i in range(n)]
+            m = [True] * n
+            for i in rng.sample(range(1, n - 1), max(1, n // 6)):
+                m[i] = False
+            if sum(m) < smooth.min_valid(variant) + 1:
+                continue
+            _, _, prm = smooth.make_case(rng, variant, n=n)
+            for bad, nm in ((float("nan"), "NaN"), (float("inf"), "+inf"), (float("-inf"), "-inf")):
+                for c in (0, 1234):
+                    arr = np.array([float(v + c) if ok else bad for v, ok in zip(line, m)], dtype="float64")
+                    got = smooth.call(variant, arr, -3000.0, prm)[0]
+                    ctx.case(("linear-gapcode", variant, a0, b0, tuple(m), nm, c), sample=dict(variant=variant, placeholder=nm, offset=c))
+                    ctx.count("linear series, non-finite gap marks")
+                    want = np.array([v + c for v in line])
+                    if not np.array_equal(got, want):
+                        ctx.fail(variant, dict(y=[None if not ok else v + c for v, ok in zip(line, m)], placeholder=nm, params=prm), got.tolist(), want.tolist(),
+                                 note="an exactly linear series is returned unchanged, its gaps filled on the same line")
+                        break
     ctx.trusted += ["native model driver (Hdc/Model/Smooth.lean at Float)", "harness/props/c06.py oracle (pairs of real calls)"]
 
 
